@@ -184,16 +184,34 @@ func c19LE(c *core.Ctx) {
 	sx.ElideConv = true
 	// structure: out := make([]byte, 32); for i < len(be) && i < 32 { out[i] = be[len(be)-1-i] }, be = n.Bytes()
 	okStore := false
+	var seenStores []string
 	core.Instrs(fn, func(i ssa.Instruction) {
 		st, ok := i.(*ssa.Store)
 		if !ok {
 			return
 		}
 		a, v := sx.Of(st.Addr).String(), sx.Of(st.Val).String()
+		if strings.Contains(a, "[") {
+			seenStores = append(seenStores, a+" <- "+v)
+		}
 		if strings.Contains(a, "[(loop{const(-1)} + const(1))]") && strings.Contains(v, "(*math/big.Int).Bytes(n)[((len((*math/big.Int).Bytes(n)) - const(1)) - (loop{const(-1)} + const(1)))]") {
 			okStore = true
 		}
 	})
+	// third written form: the magnitude is first cut to its (at most) 32 trailing bytes, then ranged front to back and
+	// written from the back: be' = be | be[len(be)-32:]; out[(len(be')-1) - i] = be'[i]
+	if !okStore {
+		B := "(*math/big.Int).Bytes(n)"
+		BE := "phi{" + B + " | " + B + "[(len(" + B + ") - const(32)):]}"
+		I := "(loop{const(-1)} + const(1))"
+		for _, st := range seenStores {
+			if strings.HasSuffix(st, "[((len("+BE+") - const(1)) - "+I+")] <- "+BE+"["+I+"]") {
+				// the trailing cut is taken only when the magnitude is longer than 32 bytes
+				cut := core.TermEdges(fn, sx, func(t string, _ *core.Term) bool { return t == "(len("+B+") > const(32))" }, true)
+				okStore = len(cut) > 0
+			}
+		}
+	}
 	// second written form: copy the (at most 32 trailing) magnitude bytes to the front of the buffer and reverse exactly
 	// the copied prefix in place: n := copy(out, be); slices.Reverse(out[:n])
 	if !okStore {
@@ -224,7 +242,7 @@ func c19LE(c *core.Ctx) {
 			okLen = true
 		}
 	}
-	c.Decide(okStore && okLen, rule, "common.BigIntToLittleEndianBytes#reverse", fn.Pos(), "byte i of the 32-byte result is byte len-1-i of the big-endian magnitude (structure only; bounds arithmetic not decided)")
+	c.Decide(okStore && okLen, rule, "common.BigIntToLittleEndianBytes#reverse", fn.Pos(), fmt.Sprintf("byte i of the 32-byte result is byte len-1-i of the big-endian magnitude (structure only; bounds arithmetic not decided); element stores: %v", seenStores))
 }
 
 func init() {
@@ -262,6 +280,12 @@ func giBytes(fn *ssa.Function, v ssa.Value, flag bool, flagIf *ssa.If, d int) ([
 			return nil, ""
 		}
 	case *ssa.Slice:
+		// a fixed-size byte array filled in place (`var b [9]byte; b[0] = 1; PutUint32(b[1:5], r); …; SetBytes(b[:])`)
+		if arr, ok := x.X.(*ssa.Alloc); ok && x.Low == nil && x.High == nil && arrayLenOf(arr.Type()) > 0 && !isLiteralBytes(arr) {
+			if parts, problem := giArray(fn, arr, flag, flagIf); problem == "" {
+				return parts, ""
+			}
+		}
 		// make([]byte, 0, n) with a constant n
 		if _, ok := x.X.(*ssa.Alloc); ok && x.Low == nil && x.High != nil {
 			if h, isC := core.ConstInt(x.High); isC && h == 0 {
@@ -369,6 +393,154 @@ func giBytes(fn *ssa.Function, v ssa.Value, flag bool, flagIf *ssa.If, d int) ([
 		}
 	}
 	return nil, fmt.Sprintf("unrecognised byte source %T", v)
+}
+
+// isLiteralBytes: the array only receives constant element stores (the backing array of a []byte{…} literal).
+func isLiteralBytes(arr *ssa.Alloc) bool {
+	for _, r := range *arr.Referrers() {
+		switch x := r.(type) {
+		case *ssa.IndexAddr:
+			for _, r2 := range *x.Referrers() {
+				if st, ok := r2.(*ssa.Store); !ok || st.Addr != ssa.Value(x) {
+					return false
+				} else if _, isC := core.ConstInt(st.Val); !isC {
+					return false
+				}
+			}
+		case *ssa.Slice, *ssa.DebugRef:
+		default:
+			return false
+		}
+	}
+	return arr.Comment == "slicelit"
+}
+
+// giArray: the content of a zero-initialised [N]byte local on the given edge of the flag. Writes are constant element
+// stores and binary.BigEndian.PutUint32 into a constant window; a write counts on this edge when its block is not
+// confined to the other branch of `if mainnetFlag`. Leading zero bytes are dropped (SetBytes reads a big-endian
+// magnitude), a run of four untouched bytes reads BE4(0).
+func giArray(fn *ssa.Function, arr *ssa.Alloc, flag bool, flagIf *ssa.If) ([]string, string) {
+	n := arrayLenOf(arr.Type())
+	bytes := make([]string, n)
+	ifb := flagIf.Block()
+	onEdge := func(b *ssa.BasicBlock) bool {
+		other := ifb.Succs[0]
+		if flag {
+			other = ifb.Succs[1]
+		}
+		this := ifb.Succs[1]
+		if flag {
+			this = ifb.Succs[0]
+		}
+		if other != this && len(other.Preds) == 1 && other.Dominates(b) {
+			return false
+		}
+		return true
+	}
+	put := func(k int64, v string) string {
+		if k < 0 || k >= n {
+			return "write outside the array"
+		}
+		if bytes[k] != "" {
+			return "overlapping writes"
+		}
+		bytes[k] = v
+		return ""
+	}
+	for _, r := range *arr.Referrers() {
+		switch x := r.(type) {
+		case *ssa.IndexAddr:
+			k, isC := core.ConstInt(x.Index)
+			for _, r2 := range *x.Referrers() {
+				st, isSt := r2.(*ssa.Store)
+				if !isSt || st.Addr != ssa.Value(x) {
+					return nil, "array element escapes"
+				}
+				if !onEdge(st.Block()) {
+					continue
+				}
+				b, isB := core.ConstInt(st.Val)
+				if !isC || !isB || b < 0 || b > 255 {
+					return nil, "non-constant element store"
+				}
+				if p := put(k, fmt.Sprintf("CONST(%02x)", b)); p != "" {
+					return nil, p
+				}
+			}
+		case *ssa.Slice:
+			lo := int64(0)
+			if x.Low != nil {
+				l, isC := core.ConstInt(x.Low)
+				if !isC {
+					return nil, "non-constant window"
+				}
+				lo = l
+			}
+			for _, r2 := range *x.Referrers() {
+				cl, isCall := r2.(*ssa.Call)
+				if !isCall {
+					continue
+				}
+				switch core.CallName(cl) {
+				case "(encoding/binary.bigEndian).PutUint32":
+					if !onEdge(cl.Block()) {
+						continue
+					}
+					val := giVal(fn, cl.Call.Args[2], flag, flagIf, 0)
+					if val == "" {
+						return nil, "unrecognised PutUint32 operand"
+					}
+					for j := int64(0); j < 4; j++ {
+						if p := put(lo+j, fmt.Sprintf("BE4(%s)#%d", val, j)); p != "" {
+							return nil, p
+						}
+					}
+				case "(*math/big.Int).SetBytes":
+				default:
+					return nil, "the array is handed to " + core.CallName(cl)
+				}
+			}
+		case *ssa.DebugRef:
+		default:
+			return nil, fmt.Sprintf("unrecognised use of the array %T", r)
+		}
+	}
+	var out []string
+	k := int64(0)
+	for k < n && bytes[k] == "" {
+		k++ // leading zeros
+	}
+	for k < n {
+		switch {
+		case bytes[k] == "":
+			run := int64(0)
+			for k+run < n && bytes[k+run] == "" {
+				run++
+			}
+			if run%4 != 0 {
+				return nil, fmt.Sprintf("%d untouched bytes in the middle", run)
+			}
+			for j := int64(0); j < run/4; j++ {
+				out = append(out, "BE4(0)")
+			}
+			k += run
+		case strings.HasSuffix(bytes[k], "#0"):
+			base := strings.TrimSuffix(bytes[k], "#0")
+			for j := int64(1); j < 4; j++ {
+				if k+j >= n || bytes[k+j] != fmt.Sprintf("%s#%d", base, j) {
+					return nil, "torn 4-byte field"
+				}
+			}
+			out = append(out, base)
+			k += 4
+		case strings.HasPrefix(bytes[k], "CONST("):
+			out = append(out, bytes[k])
+			k++
+		default:
+			return nil, "torn 4-byte field"
+		}
+	}
+	return out, ""
 }
 
 // giVal: the integer a part encodes on the given edge of the flag: a parameter, or a constant.
